@@ -97,4 +97,11 @@ theorem socket_names_never_collide (P : Params) (h : P.socketNamesFromCreateTemp
 /-- Witness: numbered per process, the host's first socket and the plugin's first socket are both `plugin1` -/
 theorem sequence_numbers_witness : socketNamesCanCollide ⟨true, true, true, true, true, true, true, true, true, true, false⟩ 1 1 = true := by decide
 
+/-- **C15 — reattaching when nothing is listening fails**, also through a reattach function that succeeded before. -/
+theorem dead_plugin_never_found (R : ProbeParams) (h : R.probesEveryCall = true) (k : Nat) : reattachFinds R k false = false := by
+  simp [reattachFinds, h]
+
+/-- Witness: a memoised probe hands the stale runner out again after the plugin has died -/
+theorem memoised_probe_witness : reattachFinds ⟨false⟩ 1 false = true := by decide
+
 end GoPlugin.Props.Hygiene
